@@ -4,7 +4,7 @@
 # tree is a genuine defect (interface requirement), kept so the confirmation can be repeated.
 LIB=${1:-/repo/src/.libs/libmeddly.a}
 INC=${2:-/repo}
-for t in t1 t2 t5 t6 t8 t10 t11 t12 t13 t14 t15 t16 t17 t19 t20 t21 t22 t23 t24 t25 t26 t27 t28 t29 t30 t31; do g++ -std=gnu++17 -I$INC/src -I$INC $t.cc $LIB -lgmp -o /tmp/triage_$t || exit 2; done
+for t in t1 t2 t5 t6 t8 t10 t11 t12 t13 t14 t15 t16 t17 t19 t20 t21 t22 t23 t24 t25 t26 t27 t28 t29 t30 t31 t32; do g++ -std=gnu++17 -I$INC/src -I$INC $t.cc $LIB -lgmp -o /tmp/triage_$t || exit 2; done
 run() { name=$1; shift; out=$(timeout 60 "$@" 2>&1); rc=$?; printf '%-28s exit=%-4s %s\n' "$name" "$rc" "$(echo "$out" | tail -1 | cut -c1-90)"; }
 run "D1 getElement(empty set)" /tmp/triage_t1
 run "D2 begin() orphaned" /tmp/triage_t2 0
@@ -40,3 +40,4 @@ run "D24 unsorted sparse node, MT" /tmp/triage_t29 0
 run "D24 unsorted sparse node, EV*" /tmp/triage_t29 1
 run "known: pregen, middle variable free" /tmp/triage_t30
 run "D26 DIST_INC fully -> quasi" /tmp/triage_t31
+run "known: +infinity -> MT copy" /tmp/triage_t32
